@@ -1,6 +1,8 @@
 #include <iostream>
 #include <cmath>
 #include <cstring>
+#include <thread>
+#include <mutex>
 #include <cstdio>
 #include <unistd.h>
 
@@ -146,23 +148,54 @@ cvm::real colvarproxy_verif::rand_gaussian()
   return std::sqrt(-2.0 * std::log(u1)) * std::cos(2.0 * M_PI * u2);
 }
 
+static thread_local int tl_thread = -1;
+static std::mutex g_smp_mutex;
+
+int colvarproxy_verif::smp_thread_id() { return (real_threads && tl_thread >= 0) ? tl_thread : cur_thread; }
+int colvarproxy_verif::smp_lock() { if (real_threads) g_smp_mutex.lock(); return COLVARS_OK; }
+int colvarproxy_verif::smp_trylock() { if (real_threads) return g_smp_mutex.try_lock() ? COLVARS_OK : COLVARS_ERROR; return COLVARS_OK; }
+int colvarproxy_verif::smp_unlock() { if (real_threads) g_smp_mutex.unlock(); return COLVARS_OK; }
+
+// the order in which the n items are taken: the relative order of the entries < n of `perm` (identity when too short)
+std::vector<int> colvarproxy_verif::order_of(int n) const
+{
+  std::vector<int> o;
+  if ((int) perm.size() >= n) {
+    for (size_t j = 0; j < perm.size(); j++) if (perm[j] < n && perm[j] >= 0) o.push_back(perm[j]);
+  }
+  if ((int) o.size() != n) { o.clear(); for (int i = 0; i < n; i++) o.push_back(i); }
+  return o;
+}
+
 int colvarproxy_verif::smp_loop(int n_items, std::function<int (int)> const &worker)
 {
   int error_code = COLVARS_OK;
+  std::vector<int> const order = order_of(n_items);
   cvm::increase_depth();
-  for (int k = 0; k < n_items; k++) {
-    int i = k;
-    if ((int) perm.size() >= n_items) {
-      // use the relative order of the first n_items entries < n_items
-      int seen = -1;
-      for (size_t j = 0; j < perm.size(); j++) {
-        if (perm[j] < n_items) { seen++; if (seen == k) { i = perm[j]; break; } }
-      }
+  if (real_threads && n_threads > 1) {
+    std::vector<int> codes(n_threads, COLVARS_OK);
+    std::vector<std::thread> th;
+    for (int t = 0; t < n_threads; t++) {
+      th.emplace_back([&, t]() {
+        tl_thread = t;
+        for (int k = 0; k < n_items; k++) {
+          int const i = order[k];
+          int const owner = (i < (int) thread_of.size()) ? (thread_of[i] % n_threads) : (i % n_threads);
+          if (owner == t) codes[t] |= worker(i);
+        }
+        tl_thread = -1;
+      });
     }
-    cur_thread = (i < (int) thread_of.size()) ? (thread_of[i] % n_threads) : 0;
-    error_code |= worker(i);
+    for (auto &x : th) x.join();
+    for (int t = 0; t < n_threads; t++) error_code |= codes[t];
+  } else {
+    for (int k = 0; k < n_items; k++) {
+      int const i = order[k];
+      cur_thread = (i < (int) thread_of.size()) ? (thread_of[i] % n_threads) : 0;
+      error_code |= worker(i);
+    }
+    cur_thread = 0;
   }
-  cur_thread = 0;
   cvm::decrease_depth();
   return error_code;
 }
@@ -171,18 +204,29 @@ int colvarproxy_verif::smp_biases_loop()
 {
   colvarmodule *cv = cvm::main();
   int const n = static_cast<int>(cv->biases_active()->size());
-  for (int k = 0; k < n; k++) {
-    int i = k;
-    if ((int) perm.size() >= n) {
-      int seen = -1;
-      for (size_t j = 0; j < perm.size(); j++) {
-        if (perm[j] < n) { seen++; if (seen == k) { i = perm[j]; break; } }
-      }
+  std::vector<int> const order = order_of(n);
+  if (real_threads && n_threads > 1) {
+    std::vector<std::thread> th;
+    for (int t = 0; t < n_threads; t++) {
+      th.emplace_back([&, t]() {
+        tl_thread = t;
+        for (int k = 0; k < n; k++) {
+          int const i = order[k];
+          int const owner = (i < (int) thread_of.size()) ? (thread_of[i] % n_threads) : (i % n_threads);
+          if (owner == t) (*(cv->biases_active()))[i]->update();
+        }
+        tl_thread = -1;
+      });
     }
-    cur_thread = (i < (int) thread_of.size()) ? (thread_of[i] % n_threads) : 0;
-    (*(cv->biases_active()))[i]->update();
+    for (auto &x : th) x.join();
+  } else {
+    for (int k = 0; k < n; k++) {
+      int const i = order[k];
+      cur_thread = (i < (int) thread_of.size()) ? (thread_of[i] % n_threads) : 0;
+      (*(cv->biases_active()))[i]->update();
+    }
+    cur_thread = 0;
   }
-  cur_thread = 0;
   return cvm::get_error();
 }
 
